@@ -110,6 +110,8 @@ C("Bucket._set", cls="Bucket",
       "absent_inserts": "implies(" + ABSENT + ", result[0] == 1)",
       "flagged": "implies(result[0] is not None, changed(self))",
       "unflagged": "implies(result[0] is None, changed(self) == old(changed(self)))",
+      "ghost_keyset": "set_eq(elems(self._keys), sadd(old(elems(self._keys)), key)) if result[0] == 1 else "
+                      "set_eq(elems(self._keys), old(elems(self._keys)))",
   },
   modifies=["list:self._keys", "list:self._values", "self._p_changed"],
   props=["C01", "C03", "C04", "C09"])
@@ -254,14 +256,22 @@ C("_BucketBase.__contains__", cls=LEAF, params={"key": ANYKEY},
   ensures={"exact": "result == (key_ok(key) and " + TKP + ")"},
   modifies=[], props=["C01", "C09", "C13"])
 
-C("Bucket.__setitem__", cls="Bucket", params={"key": ANYKEY, "value": "any"},
+TK_INS_BOTH = INS_BOTH.replace("== key and", "== to_key(key) and").replace("== value and", "== to_value(value) and")
+C("Bucket.__setitem__", cls="Bucket", params={"key": [ANYKEY, "K"], "value": ["any", "V"]},
   requires=dict(WF_BUCKET), returns="none",
   ensures={
       "wf_sorted": WF_KEYS, "wf_paired": "len(self._values) == len(self._keys)",
+      "same_lists": "self._keys is old(self._keys) and self._values is old(self._values)",
       "stored": "exists(0, len(self._keys), lambda p: self._keys[p] == to_key(key) and self._values[p] == to_value(value))",
       "size": "len(self._keys) == old(len(self._keys)) + (0 if " + TKP + " else 1)",
+      # whole view: exactly one slot inserted, or exactly one value replaced
+      "inserted_view": "implies(" + TKA + ", " + TK_INS_BOTH + ")",
+      "replaced_view": "implies(" + TKP + ", " + UNCHANGED_KEYS + " and len(self._values) == old(len(self._values)) and "
+                       "forall(0, len(self._keys), lambda j: self._values[j] == (to_value(value) if self._keys[j] == to_key(key) else old(self._values[j]))))",
+      "ghost_keyset": "set_eq(elems(self._keys), sadd(old(elems(self._keys)), to_key(key))) if " + TKA + " else "
+                      "set_eq(elems(self._keys), old(elems(self._keys)))",
   },
-  raises={"TypeError": dict(NOCHANGE_B)},      # C13: rejected before the container is modified
+  raises={"TypeError": dict(NOCHANGE_B, only_if_unconvertible="not key_ok(key) or not value_ok(value)")},      # C13: rejected before the container is modified
   modifies=["list:self._keys", "list:self._values", "self._p_changed"],
   props=["C01", "C09", "C13"])
 
